@@ -42,6 +42,8 @@ const RULE: &str = "topologies: line / star / hub / ring of 1..5 ArpRouters join
 const T0_US: u64 = 1_000;
 const WINDOW_US: u64 = 8_000_000;
 const QUIET_US: u64 = 4_000_000;
+/// frames per case after which the harness cuts a storm off
+const FRAME_CAP: usize = 20_000;
 
 // ------------------------------------------------------------------------------------------
 // case description (= the op lines)
@@ -762,7 +764,22 @@ fn run_case(c: &CaseD, upto: usize) -> CaseReport {
             }
         }
     };
-    let res = run_scenario_with(&sc, None, &extra);
+    // a frame storm (only a broken router produces one) is cut off so that the run ends
+    let frames = Arc::new(std::sync::atomic::AtomicUsize::new(0));
+    let planner: Planner = {
+        let frames = frames.clone();
+        Arc::new(move |_w: &WireSend| {
+            if frames.fetch_add(1, std::sync::atomic::Ordering::Relaxed) >= FRAME_CAP {
+                elvis_core::network::VerifFramePlan::Drop
+            } else {
+                elvis_core::network::VerifFramePlan::Deliver
+            }
+        })
+    };
+    let res = run_scenario_with(&sc, Some(planner), &extra);
+    if frames.load(std::sync::atomic::Ordering::Relaxed) > FRAME_CAP {
+        rep.fail(format!("more than {} frames were put on the networks in one case: a frame storm (the harness dropped the rest)", FRAME_CAP), "frame-storm");
+    }
     // topology lines
     let mut li = 0;
     let mac_ok = c.nodes.iter().enumerate().all(|(i, n)| match n {
@@ -994,7 +1011,8 @@ fn emit_case(out: &mut Out, sub: &str, spec_of: &dyn Fn(usize) -> String, lines:
             };
             let (head, units) = layout(lines);
             let mut survived: Option<(usize, CaseReport)> = None;
-            for upto in (0..units.len()).rev() {
+            let hung = matches!(&died, CaseOutcome::Died { hung: true, .. });
+            for upto in (0..if hung { 0 } else { units.len() }).rev() {
                 let o = run_cases(sub, &[spec_of(upto)], 1, 1, 120);
                 if let Some(CaseOutcome::Done(rep)) = o.into_iter().next() {
                     survived = Some((upto, rep));
@@ -1104,7 +1122,7 @@ pub fn run(args: &Args) {
     let mut rng = Rng::new(args.seed);
     let seeds: Vec<u64> = (0..args.cases).map(|_| rng.next() >> 1).collect();
     let specs: Vec<String> = seeds.iter().map(|s| format!("gen {} {}", s, usize::MAX)).collect();
-    let outcomes = run_cases(&args.prop, &specs, default_workers(), 20, 120);
+    let outcomes = run_cases(&args.prop, &specs, default_workers(), 20, 60);
     for (o, seed) in outcomes.into_iter().zip(seeds.iter()) {
         out.begin_case(ci);
         ci += 1;
